@@ -23,7 +23,7 @@ ANCHORS = ["decaylanguage.modeling.amplitudechain:AmplitudeChain.read_ampgen", "
            "decaylanguage.modeling.ampgentransform:AmpGenTransformer.constant", "decaylanguage.utils.particleutils:particle_from_string_name"]
 WORKERS = {"quick": 4, "thorough": 16}
 WATCHDOG = {"quick": 900, "thorough": 3300}
-REQUIRED = {"same-lines-read-again-under-the-other-cartesian-setting": 10, "expansion>=2x2": 10, "nesting-depth-3": 20, "resonance-without-alternatives": 20, "resonance-with>=2-alternatives": 20, "resonance-with-3-alternatives": 5,
+REQUIRED = {"read-through:base": 10, "read-through:goofit": 10, "read-through:goofitpy": 10, "read-through:user-reader-derived-from-the-base": 10, "read-through:user-reader-derived-from-a-converter": 10, "same-lines-read-again-under-the-other-cartesian-setting": 10, "expansion>=2x2": 10, "nesting-depth-3": 20, "resonance-without-alternatives": 20, "resonance-with>=2-alternatives": 20, "resonance-with-3-alternatives": 5,
             "tag:[S]": 10, "tag:[P]": 10, "tag:[D]": 10, "tag:[ls]": 10, "tag:[spin;ls]": 10, "cartesian:absent": 10, "cartesian:0": 10, "cartesian:1": 10,
             "parameter-rows": 20, "constant-rows": 20, "crlf": 5, "comments": 20, "eventtype-not-first": 5, "amplitudes>=8": 5, "unmemoised-read": 1, "flag-as-float-or-signed-literal": 10, "constant-name-repeated": 5, "ignored-line-kinds": 5,
             "shipped-model-or-test-text": 1, "read-after-a-failed-cartesian-read": 10, "conjugate-event-type": 20, "bare-use-in-another-spelling-of-the-particle": 5, "same-named-siblings-written-differently": 3, "same-complete-line-written-twice": 5, "coupling-very-small-or-phase-next-to-0-or-pi": 20, "free-flag-written-as-0.0-or-+0": 10}
@@ -92,10 +92,30 @@ def classify(ctx, model, exp):
     return nontrivial or bool(model["params"])
 
 
-def read(text):
-    from decaylanguage.modeling.amplitudechain import AmplitudeChain  # noqa: PLC0415
+VIAS = ["base", "base", "goofit", "goofitpy", "user-reader-derived-from-the-base", "user-reader-derived-from-a-converter"]
+_user_readers: dict = {}
 
-    return AmplitudeChain.read_ampgen(text=text)
+
+def read(text, via="base"):
+    """The text read through one of the reader classes (the base reader, the two converters, or a user's class derived from one of them -- "can be
+    subclassed to provide custom converters"); converters hand back (lines, event type) and keep the two tables as class attributes."""
+    from decaylanguage.modeling.amplitudechain import AmplitudeChain  # noqa: PLC0415
+    from decaylanguage.modeling.goofit import GooFitChain, GooFitPyChain  # noqa: PLC0415
+
+    if not _user_readers:
+        class MyReader(AmplitudeChain):
+            __slots__ = ()
+
+        class MyConverter(GooFitChain):
+            __slots__ = ()
+
+        _user_readers.update({"user-reader-derived-from-the-base": MyReader, "user-reader-derived-from-a-converter": MyConverter})
+    cls = {"base": AmplitudeChain, "goofit": GooFitChain, "goofitpy": GooFitPyChain, **_user_readers}[via]
+    res = cls.read_ampgen(text=text)
+    if len(res) == 2:
+        lines, states = res
+        return lines, cls.pars, cls.consts, states
+    return res
 
 
 def compare(ctx, res, exp, wit):
@@ -137,7 +157,10 @@ def _strip_tags(s):
     return re.sub(r"\[[^\]]*\]", "", s)
 
 
-def check(ctx, model, seed_style, workload="gen", memo=True, poison=None):
+_nread = [0]
+
+
+def check(ctx, model, seed_style, workload="gen", memo=True, poison=None, via=None):
     import random  # noqa: PLC0415
 
     text = A.render(model, random.Random(seed_style))
@@ -162,8 +185,12 @@ def check(ctx, model, seed_style, workload="gen", memo=True, poison=None):
             read(A.POISON_TEXT)
         except Exception:  # noqa: BLE001, S110   what it raises is not judged
             pass
+    via = via or VIAS[_nread[0] % len(VIAS)]
+    _nread[0] += 1
+    wit["read_through"] = via
+    ctx.hit("read-through:" + via)
     try:
-        ok, res = ctx.guard("read", wit, read, text)
+        ok, res = ctx.guard("read", wit, read, text, via)
     finally:
         if not memo:
             A.install_memo()
@@ -266,6 +293,6 @@ def run(ctx):
 def replay(ctx, w):
     A.install_memo()
     if w["kind"] == "options":
-        check(ctx, A.model_from_json(w["model"]), w["style_seed"], "replay", poison="preceded_by_failed_read_of" in w)
+        check(ctx, A.model_from_json(w["model"]), w["style_seed"], "replay", poison="preceded_by_failed_read_of" in w, via=w.get("read_through"))
     else:
         corpus(ctx)
